@@ -27,7 +27,7 @@ LEVEL_NOTE = ("trusted: the harness's own notion of 'formatter-clean' (black.for
               "outermost snapshot() calls; the only other edit allowed is the inserted import of external / HasRepr")
 RULE = ("one run = project x approved set x formatter state x 1-3 sessions; masked comparison per file and step; distinct = (layout features, #edits per file, "
         "clean?, formatter state, clause); non-trivial = a step that changed at least one argument")
-RULE += " Dimensions added while testing against seeded changes: review sessions with partial answers (clause: a snapshot whose category was declined is not rewritten), files with mixed CRLF / LF line ends and with a UTF-8 byte order mark, a flaky format-command (some calls exit non-zero after writing a valid prefix), locale encoding of the session as environment seam."
+RULE += " Dimensions added while testing against seeded changes: review sessions with partial answers (clause: a snapshot whose category was declined is not rewritten), files with mixed CRLF / LF line ends and with a UTF-8 byte order mark, a flaky format-command (some calls exit non-zero after writing a valid prefix), locale encoding of the session as environment seam; content computed by an approving session that does not parse (refused by the library's parse) is a violation of the first clause; parenthesised dict values / keyword arguments next to changed neighbours."
 ASSUMPTIONS = ["format-command stubs are AST-preserving (checked by construction: black or identity)"]
 REAL_VS_STUB = {
     "real": ["inline_snapshot library / plugin from /repo/src", "Example.run_inline (bulk)", "pytest + plugin", "black", "real files on tmpfs (newlines, encoding)"],
